@@ -166,6 +166,7 @@ func runC11(c *core.Ctx, idx int) {
 	defer func() { _ = db.Close(); _ = os.Remove(path) }()
 	st := sc.St("strs")
 
+	c11LongLiteral(c, tbl)
 	// the look-alike lists come first in every worker process, before this process has parsed any other list (whatever
 	// the library remembers about lists it has seen is empty then), and again at the end of the list cases
 	c11FirstInProcess.Do(func() {
@@ -493,4 +494,39 @@ func c11Bolt(c *core.Ctx, db *boltz.DbImpl, st *schema.St, s string, cands []str
 		}
 		return nil
 	})
+}
+
+// c11LongLiteral: literals longer than anything bbolt would take as a key (32768 bytes) compared with a field that holds
+// exactly such a value: a literal denotes its string, however long.
+func c11LongLiteral(c *core.Ctx, tbl *memsym.Table) {
+	for _, n := range []int{32767, 32768, 32769, 40000, 70000} {
+		long := strings.Repeat("L", n-1) + "x"
+		other := strings.Repeat("L", n-1) + "y"
+		lit := ql.Lit(long)
+		for _, tc := range []struct {
+			name, text string
+			want       func(row string) bool
+		}{
+			{"=", "f = " + lit, func(row string) bool { return row == long }},
+			{"!=", "f != " + lit, func(row string) bool { return row != long }},
+			{"in", "f in [" + lit + "]", func(row string) bool { return row == long }},
+			{"contains", "f contains " + lit, func(row string) bool { return strings.Contains(row, long) }},
+			{"not contains", "f not contains " + lit, func(row string) bool { return !strings.Contains(row, long) }},
+		} {
+			q, err := ast.Parse(tbl, tc.text)
+			c.Eval()
+			c.Count("long_literal_queries", 1)
+			if err != nil {
+				c.Violationf("C11 a filter with a long string literal is refused ("+tc.name+")", map[string]any{"literal_bytes": n}, "%v", err)
+				continue
+			}
+			for _, cand := range []string{long, other, "L", ""} {
+				row := memsym.NewRow(tbl)
+				row.Vals["f"] = cand
+				if got := q.EvalBool(row); got != tc.want(cand) {
+					c.Violationf("C11 a long string literal does not denote its string ("+tc.name+")", map[string]any{"literal_bytes": n, "row_bytes": len(cand)}, "f %s <literal of %d bytes> over a row of %d bytes (equal: %v) evaluates to %v", tc.name, n, len(cand), cand == long, got)
+				}
+			}
+		}
+	}
 }
